@@ -108,7 +108,8 @@ def mk_geometry(case, element):
             atom, pos = captured[0]
             dx, dy, dz = pos.x - c.x, pos.y - c.y, pos.z - c.z
             from fractions import Fraction
-            L = Fraction(repr(BOND_LENGTH[element]))      # exact decimal, not the double product
+            # elements outside the table get the program's documented standard value of 1.0 A
+            L = Fraction(repr(BOND_LENGTH.get(element, 1.0)))      # exact decimal, not the double product
             ctx.claim('bond-length', eq(dx * dx + dy * dy + dz * dz, L * L))
             if case == 'trigonal-2':
                 # -a1-a2 makes an obtuse angle with both neighbours (for any geometry)
@@ -309,7 +310,7 @@ def obligations(tier):
         Obligation('O2-add_proton', o_add_proton, code=[P + 'add_proton'], bounds='3 hydrogens at symbolic positions (1e-7 grid) in [-2,2]^3',
                    claim_doc='rounded to 0.001; bonded to exactly its parent; named apart'),
     ]
-    for case, el in (('trigonal-2', 'N'), ('tetrahedral-3', 'N'), ('tetrahedral-3', 'C')):
+    for case, el in (('trigonal-2', 'N'), ('tetrahedral-3', 'N'), ('tetrahedral-3', 'C'), ('tetrahedral-3', 'Se'), ('tetrahedral-3', 'P')):
         obs.append(Obligation('O2-construction-length[%s,%s]' % (case, el), mk_geometry(case, el),
                               code=[P + 'trigonal', P + 'tetrahedral', P + 'set_bond_distance', 'propka/vector_algebra.py:Vector.rescale'],
                               bounds='trigonal-2: centre anywhere in [-3,3]^3, 5 free neighbour coordinates in [-2,2]; tetrahedral-3: fixed centre, one neighbour fully symbolic in [-2,2]^3, two fixed; regular geometry assumed (not collinear/coplanar)',
